@@ -253,8 +253,15 @@ pub mod sel_impl {
     pub struct T; #[::entrait::entrait] impl InvImpl for T { pub fn inv<D>(deps: &D, a: i32) -> i32 { a + 30 } }
     impl Impl<Self> for super::App { type Target = T; }
 }
+// a delegation-target trait named like a type parameter a macro might pick for its own generated items (`T`)
+pub mod target_t {
+    #[::entrait::entrait(T, delegate_by = DelegateInv)] pub trait Inv { fn inv(&self, a: i32) -> i32; }
+    pub struct Tt; #[::entrait::entrait] impl T for Tt { pub fn inv<D>(deps: &D, a: i32) -> i32 { a + 60 } }
+    impl DelegateInv<Self> for super::App { type Target = Tt; }
+}
 pub fn run() {
     let app = ::entrait::Impl::new(App { k: 3 });
+    ::vrt::phase("target_t"); let r = target_t::Inv::inv(&app, 1); ::vrt::result(&r);
     ::vrt::phase("sel_asref"); let r = sel_asref::Inv::inv(&app, 1); ::vrt::result(&r);
     ::vrt::phase("sel_send"); let r = sel_send::Inv::inv(&app, 1); ::vrt::result(&r);
     ::vrt::phase("sel_impl"); let r = sel_impl::Inv::inv(&app, 1); ::vrt::result(&r);
@@ -270,7 +277,7 @@ pub fn run() {
     ::vrt::phase("inv"); let r = Inv::inv(&app, 1); ::vrt::result(&r);
 }
 """
-NO_PRELUDE_EXPECT = ["11", "21", "31", "2", "3", "4", "40", "5", "41", "6", "2", "7"]
+NO_PRELUDE_EXPECT = ["61", "11", "21", "31", "2", "3", "4", "40", "5", "41", "6", "2", "7"]
 
 # impl blocks for the delegation-target traits of *another crate*, named by absolute path, in a scope that has a local module named
 # like that crate: the path the user wrote has to stay absolute in the generated trait impl
